@@ -48,12 +48,21 @@ func (mach *unmarshalMachineWildcard) prepareDemux(driver *Unmarshaller, slab *u
 			return true, fmt.Errorf("missing an unmarshaller for tag %v", tok.Tag)
 		}
 		value_rt := atlasEntry.Type
+		if !value_rt.AssignableTo(mach.target_rt) {
+			return true, fmt.Errorf("cannot unmarshal tag %v (type %v) into a slot of interface type %v", tok.Tag, value_rt, mach.target_rt)
+		}
 		mach.holder_rv = reflect.New(value_rt).Elem()
 		mach.delegate = _yieldUnmarshalMachinePtr(slab.tip(), slab.atlas, value_rt)
 		if err := mach.delegate.Reset(slab, mach.holder_rv, value_rt); err != nil {
 			return true, err
 		}
 		return false, nil
+	}
+
+	// Without a tag we can only produce maps, slices and plain scalars; none of those
+	//  implement an interface that has methods (for which a union morphism is needed).
+	if mach.target_rt.NumMethod() > 0 && tok.Type != TNull && tok.Type != TMapClose && tok.Type != TArrClose {
+		return true, ErrUnmarshalTypeCantFit{*tok, mach.target_rv, 0}
 	}
 
 	// Switch on token type: we may be able to delegate to a primitive machine,
